@@ -14,6 +14,7 @@ W == INSTANCE Writer WITH MaxChunks <- 0, UnitSizes <- {0}, UnitKinds <- {"fmt"}
        PieceCount <- "piece", LatchBy <- "test", CachedViews <- FALSE, LatchError <- TRUE, CountAccepted <- TRUE,
        KeepFirstError <- FALSE, LatchOn <- "err", Modes <- {}, Pieces <- {}, GivenFile <- "", MaxCalls <- 1, LaterModes <- {}, FreshPerCall <- TRUE,
        ShareChoices <- {FALSE}, PerWriterWrapper <- FALSE,
+       FlushKinds <- {"none"}, ErrKinds <- {"plain"}, FlushAtEnd <- FALSE, RetryKinds <- {}, MaxRetry <- 0,
        stage <- "cfg", w <- 0, chunks <- <<>>, kinds <- <<>>, fw <- 0, obs <- 0, delivered <- <<>>, sess <- 0
 Init == chosen = FALSE /\ a = <<>>
 Next == /\ ~chosen /\ chosen' = TRUE
